@@ -22,7 +22,7 @@ HARNESSES = {
         "files": ["harness/grpcgcp/zz_verif_gme_test.go", "harness/grpcgcp/zz_verif_pool_test.go"], "rewrite": "vclock",
         "extra_files": {"multiendpoint/zz_verif_dump.go": "harness/multiendpoint/zz_verif_dump.go"},
         "corpus_glob": "*.ops", "corpus_dirs": ["C15", "C16"],
-        "episode_start": r"^gme (new|livemon|liveorder)",
+        "episode_start": r"^gme (new|livemon|liveorder|closetimers)",
         "tiers": {"quick": {"episodes": 400}, "thorough": {"episodes": 3000, "seeds": 4}},
     },
     "st": {
